@@ -107,7 +107,8 @@ def matrix(kind, tier, seed):
                 o = ("Wint", WI[cn])
                 M.append(_c("PaVeBaGP", "VVD2a", order=o, eps=1.0, type="IH", script=dict(kind="rect", G=4), max_steps=25))
                 M.append(_c("VOGP", "VVD2a", order=o, eps=1.0, script=dict(kind="rect", G=4), max_steps=25))
-                M.append(_c("PaVeBa", "VVD2a", order=o, eps=1.0, script=dict(kind="ball", G=4), max_steps=25))
+                for e in (0.5, 1.0, 2.0, 1.0, 0.5, 2.0, 1.0, 0.5):
+                    M.append(_c("PaVeBa", "VVD2a", order=o, eps=e, script=dict(kind="ball", G=4), max_steps=25))
             M.append(_c("PaVeBaGP", "VVD2a", order=("Wint", WI["obtuse"]), eps=1.0, type="DE", script=dict(kind="ell", G=4), max_steps=12))
             M.append(_c("PaVeBaPartialGP", "VVD2a", order=("Wint", WI["acute"]), eps=1.0, script=dict(kind="rect", G=4), max_steps=25))
             M.append(_c("EpsilonPAL", "VVD2a", eps=1.0, script=dict(kind="rect", G=4), max_steps=25))
